@@ -488,7 +488,45 @@ class Ctx:
                 return self._complete(m)
         except Exception:
             pass
-        return self._complete(model)
+        return self._concrete_nice(pre, l, r, model)
+
+    def _concrete_nice(self, pre, l, r, model):
+        """The solver has already answered sat but could not be steered towards a replay-friendly model in time: look among a
+        few concrete candidates (witness values, witness with scaled free variables) for one satisfying the preconditions with
+        the largest deviation. Only the choice of the counterexample to replay is affected, never the verdict."""
+        base = self._complete(model)
+        try:
+            fv = sorted(tm.free_vars([l, r]))
+            wit = dict(self.eng.envq)
+            cands = [wit]
+            for k in (2, -1, Fraction(1, 2), 3):
+                c = dict(wit)
+                for n in fv:
+                    if n in c and not isinstance(c[n], bool):
+                        c[n] = c[n] * k
+                cands.append(c)
+            for n in fv[:16]:
+                c = dict(wit)
+                if n in c and not isinstance(c[n], bool):
+                    c[n] = c[n] + Fraction(1, 16)
+                    cands.append(c)
+            best, bestd = None, 0.0
+            for c in cands:
+                env = {k: (float(v) if not isinstance(v, bool) else v) for k, v in c.items()}
+                memo = {}
+                try:
+                    if not all(bool(tm.evalf(p, env, memo)) for p in list(pre) + self.nice):
+                        continue
+                    d = abs(float(tm.evalf(l, env, memo)) - float(tm.evalf(r, env, memo)))
+                except Exception:
+                    continue
+                if d > bestd:
+                    best, bestd = c, d
+            if best is not None and bestd > 1e-3:
+                return best
+        except Exception:
+            pass
+        return base
 
 
 class AssumptionViolated(Exception):
